@@ -189,6 +189,11 @@ func jsDecode(out string) (string, bool) {
 			if !ok {
 				return "", false
 			}
+			if e == '0' && i+2 < len(out) && out[i+2] >= '0' && out[i+2] <= '9' {
+				// ECMAScript: \0 is NUL only when no decimal digit follows; otherwise it is a legacy octal escape
+				// (another character) or a syntax error (strict mode, template literals)
+				return "", false
+			}
 			units = append(units, v)
 			i += 2
 		}
@@ -366,7 +371,8 @@ func safeEscape(fn func(string) string, s string) (out string, pan string) {
 }
 
 var c13Boundary = []string{"0", "9", "A", "F", "a", "f", "G", " ", "\t", "\n", "\\", "&", "#", ";", "%", "u", "x", "<", "\"", "'",
-	"\u007f", "\u00a0", "\uffff", "\U00010000", "\U0001F600", "-", "+", "}", "/"}
+	"\u007f", "\u00a0", "\uffff", "\U00010000", "\U0001F600", "-", "+", "}", "/",
+	"\x00", "\x01", "\r", "\x1f", "7", "8", "\u2028", "\u00ff", "\u0100", "\b", "\f", "\v", "=", "`"}
 
 var c13Sub = []string{"1", "a", "F", " ", "\\", "&", "\"", "é", "\U0001F600", ";"}
 
@@ -392,7 +398,7 @@ func c13Levels(tier string) []core.Level {
 				}
 			}
 		}},
-		{Name: "every pair over the 29-character boundary alphabet", Gen: func(emit func(core.Case)) {
+		{Name: "every pair over the 43-character boundary alphabet", Gen: func(emit func(core.Case)) {
 			for _, x := range c13Boundary {
 				for _, y := range c13Boundary {
 					emit(core.Case{Fam: "seq", Args: []string{x, y}})
@@ -435,6 +441,13 @@ func c13Levels(tier string) []core.Level {
 			}
 		}
 	}})
+	lv = append(lv, core.Level{Name: "the twig escape filter (on a variable and on the result of an expression) with every strategy on every Unicode scalar value as a value of its own, doubled and between a letter and a digit (256 code points per execution): the escaper's own output, no shortcut for 'harmless' values", Gen: func(emit func(core.Case)) {
+		for e := range escapers {
+			for b := 0; b <= 0x10ff; b++ {
+				emit(core.Case{Fam: "twigcp", N: []int{b, e, b % 2}})
+			}
+		}
+	}})
 	lv = append(lv, core.Level{Name: "re-escaping: every escaper on every escaper's output of every boundary character, alone and embedded in text (a 'do not double-encode' shortcut is lossy)", Gen: func(emit func(core.Case)) {
 		for _, e2 := range escapers {
 			for _, x := range c13Boundary {
@@ -450,7 +463,7 @@ func c13Levels(tier string) []core.Level {
 		}
 	}})
 	if thorough(tier) {
-		lv = append(lv, core.Level{Name: "every triple over the 29-character boundary alphabet", Gen: func(emit func(core.Case)) {
+		lv = append(lv, core.Level{Name: "every triple over the 43-character boundary alphabet", Gen: func(emit func(core.Case)) {
 			for _, x := range c13Boundary {
 				for _, y := range c13Boundary {
 					for _, z := range c13Boundary {
@@ -600,6 +613,48 @@ func c13Run(c core.Case) core.Result {
 			}
 		}
 		return core.Okay(true, "ok")
+	case "twigcp":
+		// the escape filter of a twig environment on values that consist of one character only, once, twice and after
+		// a letter - for 256 consecutive code points per execution: each result is the escaper's own
+		e := escapers[c.N[1]]
+		var vs []stick.Value
+		var want strings.Builder
+		for cp := c.N[0] * 256; cp < c.N[0]*256+256; cp++ {
+			if cp >= 0xd800 && cp <= 0xdfff {
+				continue
+			}
+			for _, v := range []string{string(rune(cp)), string(rune(cp)) + string(rune(cp)), "a" + string(rune(cp)) + "1"} {
+				vs = append(vs, v)
+				o, _ := safeEscape(e.fn, v)
+				want.WriteString(o + "\n")
+			}
+		}
+		if len(vs) == 0 {
+			return core.Skipped("surrogate-block")
+		}
+		src := "{% for v in vs %}{{ v|escape('" + e.name + "')|raw }}\n{% endfor %}"
+		if c.N[2] == 1 {
+			// ... and on the result of an expression
+			src = "{% for v in vs %}{{ (v ~ '')|escape('" + e.name + "')|raw }}\n{% endfor %}"
+		}
+		out, err, pan := tryExec(twig.New(nil), src, map[string]stick.Value{"vs": vs})
+		if err != nil || pan != "" {
+			return core.Violation("panic", fmt.Sprintf("%q over the code points of block %#x: %v %s", src, c.N[0]*256, err, pan))
+		}
+		if out != want.String() {
+			gl, wl := strings.Split(out, "\n"), strings.Split(want.String(), "\n")
+			for i := range wl {
+				if i >= len(gl) || gl[i] != wl[i] {
+					g := "<missing>"
+					if i < len(gl) {
+						g = gl[i]
+					}
+					return core.Violation("filter-differs", fmt.Sprintf("{{ v|escape('%s') }} with v = %q renders %q, the escaper gives %q", e.name, vs[i], g, wl[i]))
+				}
+			}
+			return core.Violation("filter-differs", fmt.Sprintf("%q over block %#x renders more lines than values", src, c.N[0]*256))
+		}
+		return core.Okay(true, "ok")
 	case "twigfilter":
 		// the escape filter of a twig environment, on ONE environment, for values and strategy names chosen so that the
 		// concatenation "strategy + value" is ambiguous (html + "_attr..." / html_attr + "..."), in both orders, and
@@ -682,7 +737,7 @@ func init() {
 		ID:       "C13",
 		Category: "exploration",
 		Rule: "all five escapers on every Unicode scalar value as a one-character string (complete: 1 112 064), every invalid byte / truncated sequence (alphabet only), every boundary character at every offset of a 280-character string (3 fillers) and in runs of up to 300, " +
-			"every pair over a 29-character boundary alphabet and every triple over a 10-character sub-alphabet (thorough: all boundary triples, 4- and 5-tuples), and every escaper applied to every escaper's own output vocabulary (entities, \\u / \\X / %XX sequences) alone and embedded in text; " +
+			"every pair over a 43-character boundary alphabet and every triple over a 10-character sub-alphabet (thorough: all boundary triples, 4- and 5-tuples), and every escaper applied to every escaper's own output vocabulary (entities, \\u / \\X / %XX sequences) alone and embedded in text; " +
 			"oracles: output alphabet of the context, decode(escape(s)) == s with a decoder of the target context written from its specification, and escape(xy) == escape(x)+escape(y); " +
 			"every case is distinct and non-trivial (each exercises all five escapers)",
 		Assumptions: []string{
